@@ -30,8 +30,7 @@ CLAIMED = {
     'C19': ('other',
             'Static, all-paths typestate "commit after validate" over all 22 command arms of the interpreter, interprocedural through the front-end '
             'layer with typed exceptional edges: no error response after persistent state was mutated; MainSolver mutators validate before they '
-            'write. Decides this structural clause (a necessary condition), not that outputs are semantically equal. Four listed known findings '
-            '(names registered inside a rejected command).',
+            'write. Decides this structural clause (a necessary condition), not that outputs are semantically equal.',
             'static analysis: interprocedural typestate over the structured mini-AST with exception edges from a whole-program escape fixpoint', ''),
     'C20': ('model_checking',
             'Exhaustive product-automaton equivalence of the two scanners that decide command framing: the pipe reader loop (abstractly '
